@@ -59,19 +59,14 @@ func runHello(sc scenario, res *result) {
 	hsStarted, outEnded := false, false
 	settle := func() { w.s.WaitSettled(stepTimeout) }
 	helloItem := func(kind string) []byte {
+		var ver int64
+		if n, err := fmt.Sscanf(kind, "ok%d", &ver); n == 1 && err == nil {
+			return mustCBOR(atp.HelloMessage{Version: ver, Schema: ser})
+		}
+		if n, err := fmt.Sscanf(kind, "bad%d", &ver); n == 1 && err == nil {
+			return mustCBOR(atp.HelloMessage{Version: ver, Schema: map[string]any{"steps": "not a map"}})
+		}
 		switch kind {
-		case "ok1":
-			return mustCBOR(atp.HelloMessage{Version: 1, Schema: ser})
-		case "ok3":
-			return mustCBOR(atp.HelloMessage{Version: 3, Schema: ser})
-		case "ok99":
-			return mustCBOR(atp.HelloMessage{Version: 99, Schema: ser})
-		case "bad1":
-			return mustCBOR(atp.HelloMessage{Version: 1, Schema: map[string]any{"steps": "not a map"}})
-		case "bad3":
-			return mustCBOR(atp.HelloMessage{Version: 3, Schema: map[string]any{"steps": "not a map"}})
-		case "bad99":
-			return mustCBOR(atp.HelloMessage{Version: 99, Schema: map[string]any{"steps": "not a map"}})
 		case "junk":
 			return junkBytes
 		case "part":
